@@ -1518,8 +1518,11 @@ impl<'tcx> Cx<'tcx> {
                 // `&*s` for a string constant s (a `&str` is represented by its text): the same string
                 if let Some((ProjectionElem::Deref, rest)) = pl.projection.split_last() {
                     if let Ok(bp) = self.eval_place(st, &Place { local: pl.local, projection: self.tcx.mk_place_elems(rest) }) {
-                        if let Ok(V::Str(sv)) = self.read(st, &bp) {
-                            return Ok(V::Str(sv));
+                        match self.read(st, &bp) {
+                            Ok(V::Str(sv)) => return Ok(V::Str(sv)),
+                            // `&*s` for a symbolic `&str` (the text of an owned String): the same text
+                            Ok(V::Sym(t)) if matches!(self.ptr_ty(st, &bp).map(|x| x.kind().clone()), Ok(ty::Ref(_, inner, _)) if inner.is_str()) => return Ok(V::Sym(t)),
+                            _ => {}
                         }
                     }
                 }
@@ -2591,6 +2594,16 @@ impl<'tcx> Cx<'tcx> {
                 };
                 return Ok(Some(r));
             }
+        }
+        // the text of an owned `String` (`visit_string(self, v: String) { self.visit_str(&v) }`): the heap representation is not
+        // modelled, the text is the symbol `as_str(v)`
+        let is_string = |t: Ty<'tcx>| matches!(t.kind(), ty::Adt(d, _) if { let p = self.tcx.def_path_str(d.did()); p == "std::string::String" || p == "alloc::string::String" });
+        if self_ty.map(|t| is_string(t)).unwrap_or(false)
+            && (name == "core::ops::deref::Deref::deref" || name == "core::convert::AsRef::as_ref" || name == "core::borrow::Borrow::borrow" || pretty == "std::string::String::as_str" || pretty == "alloc::string::String::as_str")
+            && argv.len() == 1
+        {
+            let t = self.sc(st, &argv[0])?;
+            return Ok(Some(V::Sym(app("as_str", vec![t]))));
         }
         if (name == "core::cmp::PartialEq::eq" || name == "core::cmp::PartialEq::ne") && self_ty.map(|t| { let t = match t.kind() { ty::Ref(_, i, _) => *i, _ => t }; t.is_str() }).unwrap_or(false) {
             let (a, b) = (self.sc(st, &argv[0])?, self.sc(st, &argv[1])?);
